@@ -7,8 +7,10 @@ initialisation happens-before every access, it is dropped at the end of the iter
 re-initialised in the next iteration."
 
 Headline theorems about the twin (`Model/Interp.lean`): `World.tlsGet` (`LocalKey::try_with`),
-`World.dropLocals` (`Thread::drop_locals`), `World.lazyGet` (`Lazy::get` + a read of the cell in
-the value), the `.tls` / `.tlsTry` / `.tlsNest` / `.lazy` cases of `World.runOp`, the epilogue
+`World.dropLocals` (`Thread::drop_locals`), `World.lazyStage` (`Lazy::get` + a read of the cell in
+the value, staged: the initialiser has a scheduling point) with its parts `World.lazyStatics`,
+`World.lazyRead`, `World.lazyInitFinish`, the `.tls` / `.tlsTry` / `.tlsNest` / `.lazy` / `.lazyStat` cases
+of `World.runOp`, the epilogue
 `World.runEpilogue` / `World.finishThread`, `Exec.step` and `World.init`.  All of them are one-step
 laws in arbitrary worlds; every hypothesis is explicit.
 
@@ -90,7 +92,9 @@ theorem liveKeys_spelled_out (w : World) (k : Nat) :
     fun h => ⟨liveKeys_nodup w h, count_of_nodup _ (liveKeys_nodup w h) k⟩,
     fun ht h j => tlsGet_keys_nodup w j ht h⟩
 
-/-- `Thread::drop_locals` (first stage of `finishThread`, `fin = 10`).  Whatever the destructors
+/-- `Thread::drop_locals` (the first stage of the epilogue of a spawned thread, `fin = 0`, BEFORE the
+`JoinHandle` is notified — `Join.after_destructors` in `Props/C08.lean` — and again the first stage of the
+common tail `finishThread`, `fin = 10`, the only pass of the main thread).  Whatever the destructors
 do (`cfg.tlsDtor`): every key the thread had is destroyed afterwards, the other threads' records
 and the execution are untouched, and the drop counters were bumped once per listed live key (the
 loop `bump` over `liveKeys`: counter `k` goes up by the number of times `k` is listed — exactly
@@ -209,96 +213,200 @@ theorem Tls.nested_with (w : World) (c : TCtl) (k j : Nat) :
 
 /-! ## 5. `Lazy.published_once`, `Lazy.same_instance` -/
 
-/-- First access to lazy static `z` in this execution (`lazyStatics = some l`, no entry for `z`):
-the access ALWAYS succeeds (the race checks of the initialiser's own cell accesses pass), pushes
-exactly one entry for `z` — instance id = the new value of `lazyInits[z]`, a fresh cell (object
-index = old length of the object table) holding `40 + z` — and returns `inst * 100 + 40 + z`. -/
-theorem Lazy.published_once {w : World} {z : Nat} {l : List (Nat × LazyVal)}
-    (hs : w.exec.lazyStatics = some l) (hz : l.lookup z = none)
-    (hact : w.tid < w.ths.threads.length) :
-    ∃ w' sv cs, w.lazyGet z = .ok (w', (sv.inst : Int) * 100 + (40 + z)) ∧
-      w'.exec.lazyStatics = some ((z, sv) :: l) ∧
-      sv.inst = w.lazyInits.getD z 0 + 1 ∧ sv.cell = w.exec.objs.length ∧
-      w'.lazyInits = w.lazyInits.set z (w.lazyInits.getD z 0 + 1) ∧
-      w'.exec.objs.length = w.exec.objs.length + 1 ∧
-      w'.exec.objs[sv.cell]? = some (.cell cs) ∧ cs.value = 40 + z ∧ cs.isWriting = false := by
-  refine ⟨_, initVal w z, { initCell w with
-      writeAccess := w.ths.caus.join w.ths.activeCausalityInc.caus, value := 40 + z,
-      readAccess := (initCell w).readAccess.join
-        ((initWorld w z l).ths.syncLoad (initVal w z).sync .acq).activeCausalityInc.caus },
-    lazyGet_init_ok hs hz hact, rfl, rfl, rfl, rfl, ?_, ?_, rfl, rfl⟩
-  · rw [readWorld_objs, initWorld_objs]; simp
-  · rw [readWorld_objs, initWorld_objs]
-    show ((w.exec.objs ++ _).set w.exec.objs.length _)[w.exec.objs.length]? = _
-    simp
+/-- The worlds and values the statements below mention, spelled out (definitions in
+`Proofs/C17Lazy.lean`).  `bumped w z`: the initialiser of `z` starts — its run is counted in `lazyInits[z]`
+(the new value is its instance id).  `initWritten w z`: the rest of the initialiser has created its cell (a
+fresh last object) and written `40 + z` into it after `rt::synchronize`; nothing else changed.
+`initVal w id`: the `StaticValue` it registers if it wins the race: instance `id`, that cell, clock
+`sync_store(AcqRel)` of the initialiser after its `synchronize`.  `initWorld w z id l`: `initWritten w z`
+with that value registered in front of the table `l`.  `readWorld x sv cs`: the world a successful read of
+the registered value `sv` (cell content `cs`) leaves.  `StaticsGrow z s s'`: the table `s'` is `s`, or `s`
+with one new entry for `z`, which had none. -/
+theorem Lazy.defs_spelled_out (w : World) (z id : Nat) (l : List (Nat × LazyVal)) :
+    bumped w z = { w with lazyInits := w.lazyInits.set z (w.lazyInits.getD z 0 + 1) } ∧
+    ((initWritten w z).exec.lazyStatics = w.exec.lazyStatics ∧
+      (initWritten w z).lazyInits = w.lazyInits ∧
+      (initWritten w z).ths = w.ths.activeCausalityInc ∧
+      (initWritten w z).exec.objs = w.exec.objs ++
+        [.cell { readAccess := w.ths.caus,
+                 writeAccess := w.ths.caus.join w.ths.activeCausalityInc.caus, value := 40 + z }]) ∧
+    initVal w id =
+      { sync := w.ths.activeCausalityInc.syncStore Sync.new .ar, inst := id,
+        cell := w.exec.objs.length } ∧
+    initWorld w z id l =
+      { initWritten w z with
+        exec := { (initWritten w z).exec with lazyStatics := some ((z, initVal w id) :: l) } } ∧
+    (∀ (x : World) (sv : LazyVal) (cs : CellSt),
+      (readWorld x sv cs).exec.lazyStatics = x.exec.lazyStatics ∧
+      (readWorld x sv cs).lazyInits = x.lazyInits ∧
+      (readWorld x sv cs).ths = (x.ths.syncLoad sv.sync .acq).activeCausalityInc ∧
+      (readWorld x sv cs).exec.objs = x.exec.objs.set sv.cell
+        (.cell { cs with readAccess :=
+          cs.readAccess.join (x.ths.syncLoad sv.sync .acq).activeCausalityInc.caus })) ∧
+    (∀ s s', StaticsGrow z s s' ↔
+      s' = s ∨ ∃ l sv, s = some l ∧ l.lookup z = none ∧ s' = some ((z, sv) :: l)) :=
+  ⟨rfl, ⟨rfl, rfl, rfl, initWritten_objs w z⟩, rfl, rfl, fun _ _ _ => ⟨rfl, rfl, rfl, rfl⟩,
+    fun _ _ => Iff.rfl⟩
 
-/-- Any later access (by any thread, in any world whose table has the entry `sv` for `z`) that
-passes the race check finds that entry, adds none, initialises nothing, and returns
-`sv.inst * 100 +` the content of the cell inside the value — the same instance, and (the content
-being unchanged: the access only records a read) the same value as every other access.  Conversely
-the access succeeds whenever the cell is there, not being written, and its last write
-happens-before the reader (after `sync_load(Acquire)` of the entry's clock). -/
+/-- The stages of `lazy z` (`Lazy::get` + a read of the cell inside the value).  Stage 0 is `try_get`:
+registered → the value is read and the operation completes; not registered → the initialiser starts: it
+counts its run and draws its instance id `lazyInits[z] + 1`, and — when the program declares an atomic —
+reaches its scheduling point `x0.fetch_add(1, Relaxed)` (the stage it continues with IS its instance id);
+without an atomic it runs to its end in this stage.  A later stage `id` is the effect of the `fetch_add`
+followed by the rest of the initialiser `lazyInitFinish z id`. -/
+theorem Lazy.stages (w : World) (c : TCtl) (z : Nat) :
+    (c.stage = 0 → w.exec.lazyStatics = none → w.lazyStage c z = .error .lazyShutdown) ∧
+    (∀ l sv, c.stage = 0 → w.exec.lazyStatics = some l → l.lookup z = some sv →
+      w.lazyStage c z = (w.lazyRead sv).map fun r => r.1.complete (.val r.2)) ∧
+    (∀ l, c.stage = 0 → w.exec.lazyStatics = some l → l.lookup z = none → w.cfg.nAtomics = 0 →
+      w.lazyStage c z =
+        ((bumped w z).lazyInitFinish z (w.lazyInits.getD z 0 + 1)).map
+          fun r => r.1.complete (.val r.2)) ∧
+    (∀ l, c.stage = 0 → w.exec.lazyStatics = some l → l.lookup z = none → w.cfg.nAtomics ≠ 0 →
+      w.lazyStage c z =
+        (bumped w z).primStart 0 (.rmw (.add 1) .rlx .rlx) (w.lazyInits.getD z 0 + 1)) ∧
+    (c.stage ≠ 0 → w.lazyStage c z = (do
+      let (w1, _) ← w.primEffect 0 (.rmw (.add 1) .rlx .rlx)
+      let (w2, v) ← w1.lazyInitFinish z c.stage
+      pure (w2.complete (.val v)))) ∧
+    w.runOp c (.lazy z) = w.lazyStage c z :=
+  ⟨fun hc hs => lazyStage0_shutdown z hc hs, fun _ _ hc hs hz => lazyStage0_found hc hs hz,
+    fun _ hc hs hz hx => lazyStage0_init_now hc hs hz hx,
+    fun _ hc hs hz hx => lazyStage0_init_branch hc hs hz hx,
+    fun hc => lazyStage_later z hc, rfl⟩
+
+/-- A lazy static is REGISTERED at most once per execution (while the initialiser may run more than once:
+`Lazy.init_can_run_twice`).  The rest of the initialiser `lazyInitFinish z id` (any world, any `id`) with the
+table `some l`:
+(1) if `z` is registered (`l.lookup z = some sv`: another thread won the race) the table is left as it
+is — the entry is never replaced, the loser's value is dropped — the counters are untouched and the result
+is read from the REGISTERED value `sv` (its instance, the content of its cell), not from the loser's;
+(2) if `z` is not registered the call ALWAYS succeeds (the race checks of the initialiser's own cell
+accesses pass), pushes exactly one entry for `z` — instance id `id`, a fresh cell (object index = old length
+of the object table) holding `40 + z` — and returns `id * 100 + 40 + z`;
+(3) every stage of `lazy z`, in any state, keeps every entry of the table and adds at most one, for `z`,
+and only if `z` had none. -/
+theorem Lazy.published_once {w : World} {z : Nat} {l : List (Nat × LazyVal)}
+    (hs : w.exec.lazyStatics = some l) :
+    (∀ sv id, l.lookup z = some sv →
+      w.lazyInitFinish z id = (initWritten w z).lazyRead sv ∧
+      ∀ w' v, w.lazyInitFinish z id = .ok (w', v) →
+        w'.exec.lazyStatics = some l ∧ w'.lazyInits = w.lazyInits ∧
+        ∃ cs, (initWritten w z).exec.objs[sv.cell]? = some (.cell cs) ∧
+          v = (sv.inst : Int) * 100 + cs.value) ∧
+    (∀ id, l.lookup z = none → w.tid < w.ths.threads.length →
+      ∃ w' sv cs, w.lazyInitFinish z id = .ok (w', (id : Int) * 100 + (40 + z)) ∧
+        w'.exec.lazyStatics = some ((z, sv) :: l) ∧
+        sv.inst = id ∧ sv.cell = w.exec.objs.length ∧ w'.lazyInits = w.lazyInits ∧
+        w'.exec.objs.length = w.exec.objs.length + 1 ∧
+        w'.exec.objs[sv.cell]? = some (.cell cs) ∧ cs.value = 40 + z ∧ cs.isWriting = false) ∧
+    (∀ c w', w.lazyStage c z = .ok w' →
+      StaticsGrow z (some l) w'.exec.lazyStatics ∧
+      ∃ l', w'.exec.lazyStatics = some l' ∧
+        ∀ z' sv', l.lookup z' = some sv' → l'.lookup z' = some sv') := by
+  refine ⟨fun sv id hz => ⟨lazyInitFinish_found id hs hz, fun w' v h => ?_⟩, fun id hz hact => ?_,
+    fun c w' h => ?_⟩
+  · obtain ⟨hg, hi⟩ := lazyInitFinish_statics h
+    rw [lazyInitFinish_found id hs hz] at h
+    obtain ⟨cs, hc, _, _, rfl, rfl⟩ := lazyRead_ok h
+    exact ⟨hs, rfl, cs, hc, rfl⟩
+  · refine ⟨_, initVal w id, { initCell w with
+        writeAccess := w.ths.caus.join w.ths.activeCausalityInc.caus, value := 40 + z,
+        readAccess := (initCell w).readAccess.join
+          ((initWorld w z id l).ths.syncLoad (initVal w id).sync .acq).activeCausalityInc.caus },
+      lazyInitFinish_init_ok id hs hz hact, rfl, rfl, rfl, rfl, ?_, ?_, rfl, rfl⟩
+    · rw [readWorld_objs, initWorld_objs]; simp
+    · rw [readWorld_objs, initWorld_objs]
+      show ((w.exec.objs ++ _).set w.exec.objs.length _)[w.exec.objs.length]? = _
+      simp
+  · have hg := lazyStage_statics h
+    rw [hs] at hg
+    exact ⟨hg, hg.keeps rfl⟩
+
+/-- All threads see the same instance.  Any access (by any thread, in any world whose table has the entry
+`sv` for `z`) — stage 0 of `lazy z`, and also the rest of an initialiser that lost the race — is the read
+`lazyRead sv` of THAT entry.  A read that passes the race check adds no entry, initialises nothing, and
+returns `sv.inst * 100 +` the content of the cell inside the value — the same instance, and (the content
+being unchanged: the access only records a read) the same value as every other access.  Conversely the read
+succeeds whenever the cell is there, not being written, and its last write happens-before the reader (after
+`sync_load(Acquire)` of the entry's clock). -/
 theorem Lazy.same_instance {w : World} {z : Nat} {l : List (Nat × LazyVal)} {sv : LazyVal}
     (hs : w.exec.lazyStatics = some l) (hz : l.lookup z = some sv) :
-    (∀ w' v, w.lazyGet z = .ok (w', v) →
-      w'.exec.lazyStatics = some l ∧ w'.lazyInits = w.lazyInits ∧
-      w'.exec.objs.length = w.exec.objs.length ∧
-      ∃ cs, w.exec.objs[sv.cell]? = some (.cell cs) ∧ v = (sv.inst : Int) * 100 + cs.value ∧
-        w'.exec.objs[sv.cell]? = some (.cell
+    (∀ c : TCtl, c.stage = 0 →
+      w.lazyStage c z = (w.lazyRead sv).map fun r => r.1.complete (.val r.2)) ∧
+    (∀ id, w.lazyInitFinish z id = (initWritten w z).lazyRead sv) ∧
+    (∀ (x x' : World) (v : Int), x.lazyRead sv = .ok (x', v) →
+      x'.exec.lazyStatics = x.exec.lazyStatics ∧ x'.lazyInits = x.lazyInits ∧
+      x'.exec.objs.length = x.exec.objs.length ∧
+      ∃ cs, x.exec.objs[sv.cell]? = some (.cell cs) ∧ v = (sv.inst : Int) * 100 + cs.value ∧
+        x'.exec.objs[sv.cell]? = some (.cell
           { cs with
-            readAccess := cs.readAccess.join (w.ths.syncLoad sv.sync .acq).activeCausalityInc.caus })) ∧
-    (∀ cs, w.exec.objs[sv.cell]? = some (.cell cs) → cs.isWriting = false →
-      ((w.ths.syncLoad sv.sync .acq).activeCausalityInc.caus.ahead cs.writeAccess).isSome = false →
-      ∃ w', w.lazyGet z = .ok (w', (sv.inst : Int) * 100 + cs.value)) := by
-  rw [lazyGet_found hs hz]
-  constructor
-  · intro w' v h
+            readAccess := cs.readAccess.join (x.ths.syncLoad sv.sync .acq).activeCausalityInc.caus })) ∧
+    (∀ (x : World) cs, x.exec.objs[sv.cell]? = some (.cell cs) → cs.isWriting = false →
+      ((x.ths.syncLoad sv.sync .acq).activeCausalityInc.caus.ahead cs.writeAccess).isSome = false →
+      ∃ x', x.lazyRead sv = .ok (x', (sv.inst : Int) * 100 + cs.value)) := by
+  refine ⟨fun c hc => lazyStage0_found hc hs hz, fun id => lazyInitFinish_found id hs hz, ?_, ?_⟩
+  · intro x x' v h
     obtain ⟨cs, hc, _, _, rfl, rfl⟩ := lazyRead_ok h
-    refine ⟨hs, rfl, ?_, cs, hc, rfl, ?_⟩
+    refine ⟨rfl, rfl, ?_, cs, hc, rfl, ?_⟩
     · rw [readWorld_objs]; simp
     · rw [readWorld_objs]
-      have hlt : sv.cell < w.exec.objs.length := (List.getElem?_eq_some_iff.1 hc).1
+      have hlt : sv.cell < x.exec.objs.length := (List.getElem?_eq_some_iff.1 hc).1
       simp [hlt]
-  · intro cs hc hw ha
+  · intro x cs hc hw ha
     exact ⟨_, lazyRead_of hc hw ha⟩
 
 /-! ## 6. `Lazy.init_hb_access` -/
 
-/-- Initialisation happens-before every access: after a successful `lazyGet z` the table has an
-entry `sv` for `z` whose clock `sv.sync.hb` is below the accessing thread's causality; and when this
-call was the initialising one, that clock is `Sync.store … .ar` by the initialiser (after its
-`synchronize`), hence above the initialiser's causality at the call. -/
-theorem Lazy.init_hb_access {w w' : World} {z : Nat} {v : Int}
-    (hact : w.tid < w.ths.threads.length) (h : w.lazyGet z = .ok (w', v)) :
-    ∃ l sv, w'.exec.lazyStatics = some l ∧ l.lookup z = some sv ∧
-      sv.sync.hb.le w'.ths.caus ∧ w.ths.caus.le w'.ths.caus ∧
-      (∀ l0, w.exec.lazyStatics = some l0 → l0.lookup z = none →
-        l = (z, sv) :: l0 ∧ sv.sync = w.sync.ths.syncStore Sync.new .ar ∧
-        w.ths.caus.le sv.sync.hb) := by
-  rcases hs : w.exec.lazyStatics with _ | l0
-  · rw [lazyGet_shutdown z hs] at h; cases h
-  · rcases hz : l0.lookup z with _ | sv
-    · rw [lazyGet_init hs hz] at h
-      obtain ⟨cs, _, _, _, _, rfl⟩ := lazyRead_ok h
-      have hact' : (initWorld w z l0).tid < (initWorld w z l0).ths.threads.length := by
-        rw [initWorld_ths]
-        show w.ths.activeCausalityInc.activeId < _
-        unfold Threads.activeCausalityInc Threads.modifyActive
-        rw [WB.length_modify, WB.activeId_modify]; exact hact
-      obtain ⟨c1, c2⟩ := readWorld_caus (initWorld w z l0) (initVal w z) cs hact'
-      refine ⟨(z, initVal w z) :: l0, initVal w z, rfl, by simp [List.lookup], c1, ?_, ?_⟩
-      · rw [initWorld_ths] at c2
-        exact C12.VV.le_trans (caus_le_inc w.ths) c2
-      · intro l0' e0 _
-        cases e0
-        exact ⟨rfl, rfl, initVal_hb w z⟩
-    · rw [lazyGet_found hs hz] at h
-      obtain ⟨cs, _, _, _, _, rfl⟩ := lazyRead_ok h
-      obtain ⟨c1, c2⟩ := readWorld_caus w sv cs hact
-      refine ⟨l0, sv, hs, hz, c1, c2, ?_⟩
-      intro l0' e0 hz'
-      cases e0
-      rw [hz] at hz'; cases hz'
+/-- Initialisation happens-before every access.  Every access ends in `lazyRead sv` of the registered
+value (`Lazy.stages`, `Lazy.same_instance`), and
+(1) a successful `lazyRead sv` (`sync_load(Acquire)` of the entry's clock) leaves the reader's causality
+above `sv.sync.hb`;
+(2) after a successful `lazyInitFinish z id` the table has an entry `sv` for `z` whose clock is below the
+calling thread's causality; and when this call was the registering one, that clock is `Sync.store … .ar`
+by the initialiser (after its `synchronize`), hence above the initialiser's causality at the call — the
+registering thread's release clock is joined by every later reader. -/
+theorem Lazy.init_hb_access :
+    (∀ (w w' : World) (sv : LazyVal) (v : Int), w.tid < w.ths.threads.length →
+      w.lazyRead sv = .ok (w', v) → sv.sync.hb.le w'.ths.caus ∧ w.ths.caus.le w'.ths.caus) ∧
+    (∀ (w w' : World) (z id : Nat) (v : Int), w.tid < w.ths.threads.length →
+      w.lazyInitFinish z id = .ok (w', v) →
+      ∃ l sv, w'.exec.lazyStatics = some l ∧ l.lookup z = some sv ∧
+        sv.sync.hb.le w'.ths.caus ∧ w.ths.caus.le w'.ths.caus ∧
+        (∀ l0, w.exec.lazyStatics = some l0 → l0.lookup z = none →
+          l = (z, sv) :: l0 ∧ sv.inst = id ∧ sv.sync = w.sync.ths.syncStore Sync.new .ar ∧
+          w.ths.caus.le sv.sync.hb)) := by
+  constructor
+  · intro w w' sv v hact h
+    obtain ⟨cs, _, _, _, _, rfl⟩ := lazyRead_ok h
+    exact readWorld_caus w sv cs hact
+  · intro w w' z id v hact h
+    have hact' : (initWritten w z).tid < (initWritten w z).ths.threads.length := by
+      rw [initWritten_ths]
+      show w.ths.activeCausalityInc.activeId < _
+      unfold Threads.activeCausalityInc Threads.modifyActive
+      rw [WB.length_modify, WB.activeId_modify]; exact hact
+    rcases hs : w.exec.lazyStatics with _ | l0
+    · rw [lazyInitFinish_shutdown z id hs] at h; cases h
+    · rcases hz : l0.lookup z with _ | sv
+      · rw [lazyInitFinish_init id hs hz] at h
+        obtain ⟨cs, _, _, _, _, rfl⟩ := lazyRead_ok h
+        obtain ⟨c1, c2⟩ := readWorld_caus (initWorld w z id l0) (initVal w id) cs hact'
+        refine ⟨(z, initVal w id) :: l0, initVal w id, rfl, by simp [List.lookup], c1, ?_, ?_⟩
+        · rw [initWorld_ths] at c2
+          exact C12.VV.le_trans (caus_le_inc w.ths) c2
+        · intro l0' e0 _
+          cases e0
+          exact ⟨rfl, rfl, rfl, initVal_hb w id⟩
+      · rw [lazyInitFinish_found id hs hz] at h
+        obtain ⟨cs, _, _, _, _, rfl⟩ := lazyRead_ok h
+        obtain ⟨c1, c2⟩ := readWorld_caus (initWritten w z) sv cs hact'
+        refine ⟨l0, sv, hs, hz, c1, ?_, ?_⟩
+        · rw [initWritten_ths] at c2
+          exact C12.VV.le_trans (caus_le_inc w.ths) c2
+        · intro l0' e0 hz'
+          cases e0
+          rw [hz] at hz'; cases hz'
 
 /-! ## 7. `Lazy.dropped_at_end`, `Lazy.shutdown_access_panics`, `Lazy.reinit_next_iteration` -/
 
@@ -315,39 +423,67 @@ theorem Lazy.dropped_at_end {w w' : World} {c : TCtl} (ht : w.tid = 0) (hf : c.f
 
 /-- an access after the table was dropped (a thread that outlives the main closure, or a
 thread-local destructor of the main thread) panics: "attempted to access lazy_static during
-shutdown" -/
+shutdown" — at the first `try_get` (stage 0) and at the second one (the rest of an initialiser that was at
+its scheduling point when the table was dropped); `lazystat` reports no live instance. -/
 theorem Lazy.shutdown_access_panics (w : World) (c : TCtl) (z : Nat)
     (hs : w.exec.lazyStatics = none) :
-    w.lazyGet z = .error .lazyShutdown ∧ w.runOp c (.lazy z) = .error .lazyShutdown := by
-  refine ⟨lazyGet_shutdown z hs, ?_⟩
-  simp only [World.runOp, lazyGet_shutdown z hs]
+    w.lazyStatics = .error .lazyShutdown ∧
+    (c.stage = 0 → w.lazyStage c z = .error .lazyShutdown ∧
+      w.runOp c (.lazy z) = .error .lazyShutdown) ∧
+    (∀ id, w.lazyInitFinish z id = .error .lazyShutdown) ∧
+    w.runOp c (.lazyStat z) = .ok (w.complete (.val 0)) := by
+  refine ⟨lazyStatics_none hs, fun hc => ⟨lazyStage0_shutdown z hc hs, lazyStage0_shutdown z hc hs⟩,
+    fun id => lazyInitFinish_shutdown z id hs, ?_⟩
+  simp only [World.runOp, hs]
   rfl
 
 /-- The next iteration starts afresh: `Execution::step` resets the table to `some []`
 (`C13.step_resets`), `World.init` keeps it and starts with all harness counters at zero and no
-thread-local anywhere; so the first access to each lazy static in the new iteration initialises it
-again, as instance 1. -/
+thread-local anywhere; so the first access to each lazy static in the new iteration starts the initialiser
+again, as instance 1: without an atomic it registers instance 1 at once; with one it reaches its scheduling
+point with stage 1, and the rest of the initialiser run on the (still empty) table registers instance 1. -/
 theorem Lazy.reinit_next_iteration {e e' : Exec} {prog : Prog} {w : World}
     (hstep : e.step = some e') (hinit : World.init prog e' = .ok w) :
     w.exec.lazyStatics = some [] ∧ w.lazyInits = [0, 0] ∧ w.tlsInits = [0, 0] ∧
     w.tlsDrops = [0, 0] ∧ w.ctl = [{}] ∧
-    ∀ z, ∃ w' sv, w.lazyGet z = .ok (w', 100 + (40 + z)) ∧
-      w'.exec.lazyStatics = some [(z, sv)] ∧ sv.inst = 1 ∧ w'.lazyInits = w.lazyInits.set z 1 := by
+    ∀ z (c : TCtl), c.stage = 0 →
+      (prog.cfg.nAtomics = 0 → ∃ (w1 : World) (sv : LazyVal), w.lazyStage c z = .ok (w1.complete (.val (100 + (40 + z)))) ∧
+        w1.exec.lazyStatics = some [(z, sv)] ∧ sv.inst = 1 ∧ w1.lazyInits = w.lazyInits.set z 1) ∧
+      (prog.cfg.nAtomics ≠ 0 →
+        w.lazyStage c z = (bumped w z).primStart 0 (.rmw (.add 1) .rlx .rlx) 1 ∧
+        (bumped w z).lazyInits = w.lazyInits.set z 1) ∧
+      (∃ (w1 : World) (sv : LazyVal), w.lazyInitFinish z 1 = .ok (w1, 100 + (40 + z)) ∧
+        w1.exec.lazyStatics = some [(z, sv)] ∧ sv.inst = 1) := by
   obtain ⟨_, hths, _, hls, _, _⟩ := C13.step_resets hstep
-  obtain ⟨i1, i2, i3, i4, i5, _, i7⟩ := init_facts hinit
+  obtain ⟨i1, i2, i3, i4, i5, _, i7, i8⟩ := init_facts hinit
   rw [hls] at i1
   refine ⟨i1, i3, i4, i5, i7, ?_⟩
-  intro z
+  intro z c hc
   have hact : w.tid < w.ths.threads.length := by
     show w.exec.threads.activeId < w.exec.threads.threads.length
     rw [i2, hths]; exact Nat.zero_lt_one
-  obtain ⟨w', sv, cs, h1, h2, h3, _, h5, _⟩ := Lazy.published_once i1 (by rfl) hact
   have hzero : w.lazyInits.getD z 0 = 0 := by
     rw [i3]
     rcases z with _ | _ | z <;> rfl
-  rw [hzero] at h3 h5
-  refine ⟨w', sv, ?_, h2, h3, h5⟩
-  rw [h1, h3]; rfl
+  have hcfg : w.cfg = prog.cfg := by show w.prog.cfg = _; rw [i8]
+  refine ⟨fun hx => ?_, fun hx => ?_, ?_⟩
+  · have hb : (bumped w z).exec.lazyStatics = some [] := i1
+    obtain ⟨_, h2, _⟩ := Lazy.published_once (w := bumped w z) (z := z) hb
+    obtain ⟨w', sv, cs, h1, h2, h3, _, h5, _⟩ := h2 (w.lazyInits.getD z 0 + 1) (by rfl) hact
+    rw [lazyStage0_init_now hc i1 (by rfl) (by rw [hcfg]; exact hx), h1]
+    rw [hzero] at h3
+    refine ⟨w', sv, ?_, h2, h3, ?_⟩
+    · show Except.ok (w'.complete (.val _)) = _
+      rw [hzero]; rfl
+    · rw [h5]; show w.lazyInits.set z (w.lazyInits.getD z 0 + 1) = _
+      rw [hzero]
+  · rw [lazyStage0_init_branch hc i1 (by rfl) (by rw [hcfg]; exact hx), hzero]
+    refine ⟨rfl, ?_⟩
+    show w.lazyInits.set z (w.lazyInits.getD z 0 + 1) = _
+    rw [hzero]
+  · obtain ⟨_, h2, _⟩ := Lazy.published_once (w := w) (z := z) i1
+    obtain ⟨w', sv, cs, h1, h2, h3, _⟩ := h2 1 (by rfl) hact
+    exact ⟨w', sv, by rw [h1]; rfl, h2, h3⟩
 
 /-! ## 8. non-vacuity -/
 
@@ -392,22 +528,79 @@ theorem Tls.example :
   refine ⟨?_, ?_, ?_, ?_, ?_, ?_, ?_, ?_, ?_, ?_, ?_, ?_⟩ <;> decide +kernel
 
 open C17.Ex in
-/-- Lazy statics, concretely.  Thread 0's first `lazy 0` initialises instance 1 and returns
-`1 * 100 + 40`; thread 1's access afterwards returns the same `140`, initialises nothing (the
-counter stays 1, the table keeps its one entry) and thread 1's causality `[1,1,0,0,0]` becomes
-`[2,2,0,0,0]`, above the published clock `[2,0,0,0,0]` of the initialiser; after the main thread's
-epilogue the table is gone and an access panics. -/
+/-- Lazy statics, concretely (`w0` declares no atomic: the initialiser has no scheduling point).  Thread 0's
+first `lazy 0` initialises instance 1 and returns `1 * 100 + 40`; thread 1's access afterwards returns the
+same `140`, initialises nothing (the counter stays 1, the table keeps its one entry) and thread 1's
+causality `[1,1,0,0,0]` becomes `[2,2,0,0,0]`, above the published clock `[2,0,0,0,0]` of the initialiser;
+the rest of an initialiser with instance id 2 run by thread 1 on that table (it lost the race) creates its
+cell (2 objects) but registers nothing and returns the winner's `140`; after the main thread's epilogue the
+table is gone and an access panics. -/
 theorem Lazy.example :
-    ((w0.lazyGet 0).toOption.map fun r => (r.2, r.1.lazyInits)) = some (140, [1, 0]) ∧
-    ((w0.lazyGet 0).toOption.map fun r =>
-      r.1.exec.lazyStatics.map (·.map fun e => (e.1, e.2.inst, e.2.cell, e.2.sync.hb))) =
+    ((w0.lazyStage {} 0).toOption.map fun r => (r.events.head?.map (·.ret), r.lazyInits)) =
+      some (some (.val 140), [1, 0]) ∧
+    ((w0.lazyStage {} 0).toOption.map fun r =>
+      r.exec.lazyStatics.map (·.map fun e => (e.1, e.2.inst, e.2.cell, e.2.sync.hb))) =
       some (some [(0, 1, 0, VV.ofList [2, 0, 0, 0, 0])]) ∧
-    ((w0.lazyGet 0).toOption.bind fun r => ((asThread1 r.1).lazyGet 0).toOption.map fun r2 =>
-      (r2.2, r2.1.lazyInits, r2.1.exec.lazyStatics.map (·.length), r2.1.ths.caus)) =
-      some (140, [1, 0], some 1, VV.ofList [2, 2, 0, 0, 0]) ∧
+    ((w0.lazyStage {} 0).toOption.bind fun r =>
+      ((asThread1 r).lazyStage { body := 1 } 0).toOption.map fun r2 =>
+        (r2.events.head?.map (·.ret), r2.lazyInits, r2.exec.lazyStatics.map (·.length), r2.ths.caus)) =
+      some (some (.val 140), [1, 0], some 1, VV.ofList [2, 2, 0, 0, 0]) ∧
+    ((w0.lazyStage {} 0).toOption.bind fun r =>
+      ((asThread1 r).lazyInitFinish 0 2).toOption.map fun r2 =>
+        (r2.2, r2.1.lazyInits, r2.1.exec.lazyStatics.map (·.map fun e => e.2.inst),
+          r2.1.exec.objs.length)) =
+      some (140, [1, 0], some [1], 2) ∧
     ((w0.runEpilogue {}).toOption.map fun w' => w'.exec.lazyStatics.isSome) = some false ∧
     ((w0.runEpilogue {}).toOption.map fun w' =>
-      match w'.lazyGet 0 with | .error .lazyShutdown => true | _ => false) = some true := by
-  refine ⟨?_, ?_, ?_, ?_, ?_⟩ <;> decide +kernel
+      match w'.lazyStage {} 0 with | .error .lazyShutdown => true | _ => false) = some true := by
+  refine ⟨?_, ?_, ?_, ?_, ?_, ?_⟩ <;> decide +kernel
+
+/-! ## 9. the initialiser can run twice -/
+
+namespace C17.Twice
+
+/-- `cfg x=1 | T0: spawn 1; lazy 0; join 1; ld 0 rlx | T1: ld 0 rlx; lazy 0` (the text `Prog.parse`
+reads; the parser works on strings and does not reduce in the kernel, so the parsed program is given).  The
+initialiser of lazy static 0 performs `x0.fetch_add(1, Relaxed)`; T0's last load (after the join) reads how
+often it ran. -/
+def prog : Prog :=
+  { cfg := { nAtomics := 1 },
+    threads := [[.spawn 1, .lazy 0, .join 1, .atom 0 (.load .rlx)],
+                [.atom 0 (.load .rlx), .lazy 0]] }
+
+/-- what we look at in an iteration: the verdict, and the results of the two `lazy 0` (`pc = 1`) and of
+T0's last load (`pc = 3`), in execution order, as (thread, result) -/
+def obs (it : Iteration) : Option Panic × List (Nat × Ret) :=
+  (it.result.term,
+    it.result.events.filterMap fun e => if e.pc = 3 ∨ e.pc = 1 then some (e.tid, e.ret) else none)
+
+/-- the final world of the iteration that replays path `p` (the harness counters live in the world) -/
+def finalWorld (p : Path) : Option World :=
+  match World.init prog { Check.initExec prog.cfg with path := p } with
+  | .ok w0 => some (World.runLoop 10000 w0).1
+  | .error _ => none
+
+end C17.Twice
+
+open C17.Twice in
+/-- The negative fact: "initialised at most once per execution" does NOT hold for the initialiser (it holds
+for the registration, `Lazy.published_once`).  The exploration of `C17.Twice.prog` completes after 7
+iterations, none panics; in iterations 3, 4 and 5 both threads find the static unregistered at their first
+`try_get`, both run the initialiser — T0's last load of `x0` returns 2 and the harness counter
+`lazyInits[0]` ends at 2 — and yet both accesses return the SAME instance (`240`: instance 2 won; `140`:
+instance 1 won): the loser's value is dropped.  In the other iterations the initialiser runs once. -/
+theorem Lazy.init_can_run_twice :
+    (Check.run prog 100).2 = .completed ∧
+    (Check.run prog 100).1.map obs =
+      [(none, [(0, .val 140), (1, .val 140), (0, .val 1)]),
+       (none, [(0, .val 140), (1, .val 140), (0, .val 1)]),
+       (none, [(1, .val 240), (0, .val 240), (0, .val 2)]),
+       (none, [(1, .val 240), (0, .val 240), (0, .val 2)]),
+       (none, [(0, .val 140), (1, .val 140), (0, .val 2)]),
+       (none, [(0, .val 140), (1, .val 140), (0, .val 1)]),
+       (none, [(0, .val 140), (1, .val 140), (0, .val 1)])] ∧
+    (Check.run prog 100).1.map (fun it => (finalWorld it.start).map (·.lazyInits)) =
+      [some [1, 0], some [1, 0], some [2, 0], some [2, 0], some [2, 0], some [1, 0], some [1, 0]] := by
+  refine ⟨?_, ?_, ?_⟩ <;> decide +kernel
 
 end LoomVerif
